@@ -1307,6 +1307,10 @@ func zFor(set []byte, version int, codec int) (string, bool) {
 	return fmt.Sprintf(" z%d:%d:%s", start, len(set)-start, wb(plain)), true
 }
 
+// v1WithHeaders: the records of a message-format-1 case carry headers, which that format cannot hold (known finding
+// C05-D32: they are dropped without an error)
+var v1WithHeaders bool
+
 func produceCase(r *rand.Rand, path string, version int, codec int, rs []rec, totalSmall bool) {
 	var set []byte
 	var err error
@@ -1329,11 +1333,14 @@ func produceCase(r *rand.Rand, path string, version int, codec int, rs []rec, to
 		}
 	}()
 	tag := fmt.Sprintf("produce/%s/v%d/c%d/produced", path, version, codec)
+	if v1WithHeaders {
+		tag = fmt.Sprintf("produce/%s/v1hdr/c%d/produced", path, codec)
+	}
 	offs := func(i int) int64 { return int64(i) }
 	if path == "conn" && version == 1 && codec == 0 {
 		offs = func(int) int64 { return 0 } // Message.Offset is written as is; brokers assign offsets
 	}
-	want := givenCanon(rs, offs, version == 2)
+	want := givenCanon(rs, offs, version == 2 || v1WithHeaders)
 	if err != nil {
 		emit(fmt.Sprintf("wire %s -", tag), "error:"+errClass(err)+" wanted "+want)
 		return
@@ -1515,6 +1522,14 @@ func main() {
 				}
 			}
 		}
+		// message format 1 cannot carry headers: one case per path with headers given (known finding C05-D32)
+		v1WithHeaders = true
+		for _, path := range []string{"proto", "client", "writer", "conn"} {
+			hs := genRecs(r, 2, 0, true)
+			hs[0].hdrs = []protocol.Header{{Key: "h", Value: []byte("v")}}
+			produceCase(r, path, 1, 0, hs, false)
+		}
+		v1WithHeaders = false
 		// many small records in one batch (offset deltas and varint widths beyond one byte)
 		produceCase(r, "proto", 2, 0, genRecs(r, 150, 0, false), false)
 		produceCase(r, "conn", 2, 0, genRecs(r, 150, 0, false), false)
